@@ -371,8 +371,9 @@ def run(model, tier):
         'of Ttop; transient summand solves the 2D heat equation, vanishes on the boundary, and A_nm are the double sine coefficients '
         'of minus the static part (zero initial temperature; the sinh*sin integral through a supplied antiderivative verified by '
         'differentiation). Hutchens1: summand solves the spherical heat equation with alpha = k/(rho cp), vanishes at r = b, '
-        'coefficients are the sine coefficients of -r (T = T0 at t = 0). Not decided: Hutchens2 and the cylindrical sandwich '
-        '(Bessel series).')
+        'coefficients are the sine coefficients of -r (T = T0 at t = 0). Hutchens2: polynomial part carries the heat generation and the end '
+        'temperatures; every series summand must be harmonic (modified Bessel I0) and vanish at both ends (known finding: the '
+        'third one is not). Not decided: the cylindrical sandwich (numerically found radial eigenvalues).')
     res.rule_text = 'instances: dimension constraints, accumulators, singular-point sites, dispatch chain, sibling pair'
     res.trusted_base = ['CPython ast', 'sympy FracField', 'NF engine', 'interval algebra']
     dims(model, res)
@@ -384,5 +385,5 @@ def run(model, tier):
     from . import c14_modes
     from ..par import run_parallel
     run_parallel([(lambda part: c14_modes.rod(model, part), ()), (lambda part: c14_modes.rectangle(model, part), ()),
-                  (lambda part: c14_modes.hutchens1(model, part), ())], res)
+                  (lambda part: c14_modes.hutchens1(model, part), ()), (lambda part: c14_modes.hutchens2(model, part), ())], res)
     return res
